@@ -633,8 +633,44 @@ def _find_map(I, st, fid, bi, a, c, t):
     return None
 
 
+def _range_item(I, st, rng):
+    """a generic item of `start..end` (one generic iteration of an internal-iteration method): a fresh value with
+    start <= i < end, shaped like the payload of Range::next so that rules read it as the loop index"""
+    n = next(I.counter)
+    nx = ('call', 'core::iter::range::<impl core::iter::traits::iterator::Iterator for core::ops::range::Range<A>>::next', (('opaque', n, 'range-iter'),), n)
+    i = ('app', 'vproj', nx, 'Some', '0')
+    st.facts |= {('le', field_of(rng, 'start'), i), ('lt', i, field_of(rng, 'end')), ('is', nx, 'Some')}
+    return i
+
+
+@model('core::iter::traits::iterator::Iterator::try_for_each')
+def _try_for_each(I, st, fid, bi, a, c, t):
+    # (start..end).try_for_each(f): one generic iteration; the whole call is Ok(()) or the Err of some iteration
+    src = deref(I, st, a[0]) if a[0][0] == 'addr' else a[0]
+    if src[0] == 'agg' and src[1].endswith('Range') and field_of(src, 'start') is not None and len(a) > 1:
+        f = a[1]
+        _havoc_captures(I, st, f)
+        i = _range_item(I, st, src)
+        rx = I.apply_callable(st, fid, bi, f, agg('tuple', '', (('0', i),)))
+        if rx == ('never',):
+            return rx
+        return _opt_cases(I, st, fid, bi, rx, 'Ok', lambda s, p: ok(UNIT), lambda s: err(('app', 'err_of', rx)), 'try_for_each')
+    return None
+
+
 @model('core::iter::traits::iterator::Iterator::for_each')
 def _for_each(I, st, fid, bi, a, c, t):
+    srcr = a[0]
+    if srcr[0] == 'agg' and srcr[1].endswith('Range') and field_of(srcr, 'start') is not None and len(a) > 1:
+        # (start..end).for_each(f): one generic iteration
+        f = a[1]
+        _havoc_captures(I, st, f)
+        s2 = st.copy()
+        i = _range_item(I, s2, srcr)
+        rx = I.apply_callable(s2, fid, bi, f, agg('tuple', '', (('0', i),)))
+        # zero iterations are possible: what the iteration learned does not hold afterwards, what it changed may have happened
+        I.havoc(st, 'for_each')
+        return UNIT if rx != ('never',) else UNIT
     # iter::from_fn(g).for_each(f): one generic iteration of `while let Some(x) = g() { f(x) }` (captured &mut state havocked first)
     src = a[0]
     if src[0] == 'agg' and src[1] == 'iter:FromFn' and len(a) > 1:
